@@ -119,6 +119,52 @@ def run(chk):
             if kind != "out-of-range-signed" and (mo == "REFUSED") != impl_refused and ref_bad is None:
                 ref_bad = (cls.__qualname__, kind, pname, impl_refused, mo)
     chk.oblige("tieB:invalid-assignments-refused(%d)" % n_inv, ref_bad is None, repr(ref_bad) if ref_bad else "")
+    # ---- every integer-like parameter (plain, enum, bitmap) of every class x every out-of-range plain value: refused
+    sweep_bad = None
+    n_sw = 0
+    for idx, cls in table:
+        base = None
+        for p in cls.schema:
+            c = W.classify(p.type)
+            if c[0] != "int":
+                continue
+            if base is None:
+                for _ in range(20):
+                    try:
+                        base = W.gen_assignment(rng, cls)
+                        # all optional parameters given, so that any of them can be overwritten
+                        for q in cls.schema:
+                            if q.name not in base:
+                                base[q.name] = W.gen_py(rng, q.type)
+                        cls(**base)
+                        break
+                    except Exception:  # noqa
+                        base = None
+                if base is None:
+                    break
+            lo, hi = (-(1 << (8 * c[1] - 1)), (1 << (8 * c[1] - 1)) - 1) if c[2] else (0, (1 << (8 * c[1])) - 1)
+            for v in (hi + 1, lo - 1, -1 if lo == 0 else lo - 2, 1 << (8 * c[1] + 3)):
+                kw = dict(base)
+                kw[p.name] = v
+                n_sw += 1
+                chk.evaluations += 1
+                try:
+                    obj = cls(**kw)
+                except (ValueError, KeyError, TypeError, OverflowError):
+                    continue
+                if sweep_bad is None:
+                    try:
+                        wire = bytes(obj.to_frame().hl_packet.data).hex()
+                    except Exception as e:  # noqa
+                        wire = "to_frame raised %s" % type(e).__name__
+                    sweep_bad = (cls.__qualname__, p.name, v, wire)
+                    chk.violation("%s accepts the out-of-range value %d for parameter %s (%d-byte %s) and encodes it as %s"
+                                  % (cls.__qualname__, v, p.name, c[1], "signed" if c[2] else "unsigned", wire),
+                                  {"class": cls.__qualname__, "param": p.name, "value": v, "wire": wire},
+                                  key="accepts-range:%s:%s" % (cls.__qualname__, p.name))
+    chk.count("out_of_range_sweep", n_sw)
+    chk.oblige("monitor:out-of-range-plain-values-refused(every int/enum/bitmap parameter of every class: %d trials)" % n_sw,
+               sweep_bad is None, repr(sweep_bad) if sweep_bad else "")
     # all regenerated Rsp/Ind schemas satisfy the decidable side condition of the round-trip theorem
     oks = model.batch(["schemaok %d" % idx for idx, cls in table])
     notok = [cls.__qualname__ for (idx, cls), o in zip(table, oks) if o != "1" and ((int(cls.header) >> 8) & 0xFF) in (1, 2)]
